@@ -155,7 +155,9 @@ ObsAspects(S, r, ev) ==
   \cup (IF "nh" \in DOMAIN o THEN (IF o.nh = Len(T.hist) THEN {} ELSE {"recorded"}) ELSE {})
   \cup (IF "rec" \in DOMAIN o /\ r.oc = "ok"
         THEN {"rec." \o a : a \in MsgAspects(T.hist[Len(T.hist)], o.rec)} ELSE {})
-  \cup (IF "db" \in DOMAIN o THEN DbAspects(T.conns[o.dbk].db, o.db) ELSE {})
+  \cup (IF "db" \in DOMAIN o
+        THEN (IF o.dbk \in 1..Len(T.conns) THEN DbAspects(T.conns[o.dbk].db, o.db) ELSE {"conns.count"})
+        ELSE {})
   \cup (IF "fsel" \in DOMAIN o THEN SelAspects(T, T.filter, o.fsel, "filter") ELSE {})
   \cup (IF "bsel" \in DOMAIN o THEN SelAspects(T, T.brk, o.bsel, "break") ELSE {})
   \cup (IF "sel" \in DOMAIN o THEN (IF o.sel = T.sel THEN {} ELSE {"selected"}) ELSE {})
